@@ -1,14 +1,23 @@
 package props
 
 import (
+	"bytes"
+	"encoding/binary"
 	"fmt"
+	"io"
 	"net"
+	"os"
+	"path/filepath"
+	"regexp"
 	"strings"
+	"sync"
+	"time"
 
 	"gaeaverif/harness/core"
 
 	"github.com/XiaoMi/Gaea/models"
 	"github.com/XiaoMi/Gaea/proxy/server"
+	"github.com/XiaoMi/Gaea/util"
 )
 
 // C35 — allow-list of client addresses: proxy/server parseAllowIps,
@@ -21,10 +30,22 @@ func init() {
 			"white space, blank entries, a malformed stream) × clients at the prefix boundaries of a listed entry (the entry's address, " +
 			"last bit inside the prefix flipped, first bit outside flipped, last bit flipped) presented as 4-byte, IPv4-mapped and 16-byte " +
 			"addresses, plus cross-family and random clients; `conn` goes through Session.IsAllowConnect with the text of RemoteAddr(); " +
-			"non-trivial = the list was accepted and is not empty",
+			"non-trivial = the list was accepted and is not empty; `reload`: histories of prepare (valid, unparsable, blank-only, empty lists) / commit / delete on the " +
+			"real Manager with clients connecting in between; `sock`: real tcp4 / tcp6 / dual-stack / unix-socket connections judged by their own RemoteAddr(); " +
+			"`hs`: the proxy's own connection handler (Server.onConn) on a real listener of each kind, a real client logging in with the right password: OK packet or error 1045; " +
+			"whole-run check: clients connecting while another goroutine reloads between two lists",
 		Generate: genC35,
 		Exec:     execC35,
+		Extra:    c35Concurrent,
 		Trivial: func(in core.Sexp, out string) bool {
+			switch in.Head() {
+			case "reload":
+				return !strings.Contains(out, "ok") || !strings.Contains(in.String(), "(conn")
+			case "sock", "hs":
+				return len(in.Nth(2).List) == 0 || strings.HasPrefix(out, "(err")
+			case "utilparse":
+				return false
+			}
 			if out != "t" && out != "f" {
 				return true
 			}
@@ -55,6 +76,7 @@ func c35Entries(in core.Sexp) []string {
 }
 
 func execC35(in core.Sexp) string {
+	c31QuietLog() // Session.IsAllowConnect logs a warning for every remote address without host:port
 	tf := func(b bool) string {
 		if b {
 			return "t"
@@ -84,9 +106,157 @@ func execC35(in core.Sexp) string {
 			return "(err parse)"
 		}
 		return "ok"
+	case "reload":
+		m, err := c35Manager(c35Entries(in.Nth(1)))
+		if err != nil {
+			return "(err manager)"
+		}
+		defer m.VerifC31Close()
+		var outs []string
+		for _, op := range in.List[2:] {
+			outs = append(outs, c35Apply(m, op))
+		}
+		return "(" + strings.Join(outs, " ") + ")"
+	case "sock":
+		l, err := server.VerifParseAllowIps(c35Entries(in.Nth(2)))
+		if err != nil {
+			return "(err parse)"
+		}
+		return c35Sock(in.Nth(1).Atom, l)
+	case "hs":
+		return c35Handshake(in.Nth(1).Atom, c35Entries(in.Nth(2)))
+	case "utilparse":
+		ips, err := util.VerifParseAllowIps(in.Nth(1).Str())
+		if err != nil {
+			return "(err parse)"
+		}
+		return fmt.Sprintf("(kept %d)", len(ips))
 	}
 	return "bad"
 }
+
+const c35NS = "ns0"
+
+// c35Config is a namespace configuration with the given allowed_ip; its one
+// slice has no master and no replica (no pool is opened, as in C31's harness).
+func c35Config(allowed []string) *models.Namespace {
+	return &models.Namespace{
+		Name:         c35NS,
+		AllowedIP:    allowed,
+		Users:        []*models.User{{UserName: "u0", Password: "p0", Namespace: c35NS, RWFlag: 2}},
+		Slices:       []*models.Slice{{Name: "slice-0"}},
+		DefaultSlice: "slice-0",
+	}
+}
+
+// c35Manager starts a Manager the way the proxy does with the one namespace
+// (a namespace whose configuration NewNamespace rejects is not created).
+func c35Manager(allowed []string) (*server.Manager, error) {
+	c31QuietLog()
+	return server.VerifC31NewManager("dc", map[string]*models.Namespace{c35NS: c35Config(allowed)})
+}
+
+func c35Apply(m *server.Manager, op core.Sexp) string {
+	switch op.Head() {
+	case "prepare":
+		if err := m.ReloadNamespacePrepare(c35Config(c35Entries(op.Nth(1)))); err != nil {
+			if strings.Contains(err.Error(), "parse allowips error") {
+				return "(err parse)"
+			}
+			return "(err other)"
+		}
+		return "ok"
+	case "commit":
+		if err := m.ReloadNamespaceCommit(c35NS); err != nil {
+			return "(err notprepared)"
+		}
+		return "ok"
+	case "delete":
+		if err := m.DeleteNamespace(c35NS); err != nil {
+			return "(err other)"
+		}
+		return "ok"
+	case "conn":
+		if server.VerifC35Connect(m, c35NS, c35Addr(op.Nth(1).Str())) {
+			return "t"
+		}
+		return "f"
+	}
+	return "bad"
+}
+
+var c35Port = regexp.MustCompile(`:[0-9]+$`)
+
+// c35Sock opens a real listener of the kind, connects a real client to it and
+// lets Session.IsAllowConnect judge the accepted connection by its own
+// RemoteAddr(). The answer carries the remote address text (port replaced by 1).
+func c35Sock(kind string, l *server.VerifAllowList) string {
+	network, addr, dial := "", "", ""
+	switch kind {
+	case "tcp4":
+		network, addr = "tcp4", "127.0.0.1:0"
+	case "tcp6":
+		network, addr = "tcp6", "[::1]:0"
+	case "dual4": // a dual-stack listener reached over IPv4: the peer is an IPv4-mapped address
+		network, addr = "tcp", "[::]:0"
+	case "unix":
+		dir, err := os.MkdirTemp("", "gvc35")
+		if err != nil {
+			return "(err sock)"
+		}
+		defer os.RemoveAll(dir)
+		network, addr = "unix", filepath.Join(dir, "s")
+	default:
+		return "bad"
+	}
+	ln, err := net.Listen(network, addr)
+	if err != nil {
+		return "(err sock)"
+	}
+	defer ln.Close()
+	dial = ln.Addr().String()
+	dialNet := network
+	if kind == "dual4" {
+		_, port, _ := net.SplitHostPort(dial)
+		dial, dialNet = "127.0.0.1:"+port, "tcp4"
+	}
+	done := make(chan net.Conn, 1)
+	go func() {
+		c, err := net.DialTimeout(dialNet, dial, 5*time.Second)
+		if err != nil {
+			done <- nil
+			return
+		}
+		done <- c
+	}()
+	if d, ok := ln.(interface{ SetDeadline(time.Time) error }); ok {
+		d.SetDeadline(time.Now().Add(5 * time.Second))
+	}
+	c, err := ln.Accept()
+	if cl := <-done; cl != nil {
+		defer cl.Close()
+	}
+	if err != nil {
+		return "(err sock)"
+	}
+	defer c.Close()
+	dec := "f"
+	if l.IsAllowConnectConn(c) {
+		dec = "t"
+	}
+	text := c35Port.ReplaceAllString(c.RemoteAddr().String(), ":1")
+	return "(" + dec + " " + core.Text(text).String() + ")"
+}
+
+// c35HaveSock reports which kinds of real connections this machine can make.
+var c35HaveSock = sync.OnceValue(func() map[string]bool {
+	have := map[string]bool{}
+	open, _ := server.VerifParseAllowIps(nil)
+	for _, k := range []string{"tcp4", "tcp6", "dual4", "unix"} {
+		have[k] = open != nil && strings.HasPrefix(c35Sock(k, open), "(t ")
+	}
+	return have
+})
 
 // ---- generator ----
 
@@ -177,11 +347,19 @@ func c35Text(g *core.Gen, a []byte) string {
 			return "::FFFF:" + ip.To4().String()
 		}
 	}
-	switch g.Intn(5) {
+	switch g.Intn(6) {
 	case 0:
 		return full(false, false)
 	case 1:
 		return full(true, true)
+	case 5: // mixed case: every hex letter upper or lower at random
+		b := []byte(full(false, g.Intn(2) == 0))
+		for i, c := range b {
+			if c >= 'a' && c <= 'f' && g.Intn(2) == 0 {
+				b[i] = c - 32
+			}
+		}
+		return string(b)
 	case 2: // trailing dotted quad
 		var parts []string
 		for i := 0; i < 12; i += 2 {
@@ -220,6 +398,13 @@ var c35Malformed = []string{
 	"1::2::3", "1:2:3:4:5:6:7", "1:2:3:4:5:6:7:8:9", "1:2:3:4:5:6:7:8::", "::1:2:3:4:5:6:7:8", "12345::", "::g", "1:2:3:4:5:6:7:", ":1:2:3:4:5:6:7",
 	"::ffff:1.2.3", "::ffff:1.2.3.4.5", "::ffff:01.2.3.4", "1.2.3.4::", "1:2:3:4:5:6:7:1.2.3.4", "::1.2.3.4.", "1.2.3.4,5.6.7.8", "1.2.3.4;", "１.2.3.4",
 	"1.2.3.4/٣", "0x7f.0.0.1", "127.1", "2130706433", "::ffff:300.1.1.1", "[::1]", "[::1]/128", "1.2.3.4:80",
+	// leading zeros in an octet (Go refuses; other parsers read octal), zones, a zone on a block, empty zone
+	"010.0.0.1", "10.0.0.01", "192.168.001.1", "00.0.0.0", "0.0.0.00", "000.000.000.000", "::ffff:010.1.1.1", "010.0.0.1/8", "0377.0.0.1",
+	"fe80::1%25eth0", "::1%lo", "::ffff:1.2.3.4%eth0", "fe80::%eth0/10", "fe80::1%/64", "1.2.3.4%", "%eth0", "fe80::1%eth0%eth1",
+	// white space that is not white space for Go: lone bytes of a multi-byte space, zero-width space, BOM
+	"\x85" + "1.2.3.4", "1.2.3.4\xa0", "\xc2" + "1.2.3.4", "1.2.3.4\xe2\x80", "\u200b1.2.3.4", "\ufeff1.2.3.4", "1.2.3.4\u180e", "1.2. 3.4", "1.2.3.4 /8",
+	// five hex digits, an upper-case X prefix, a dotted quad that is not at the end, too many groups around one
+	"0ABCD::", "0Xff::", "::1.2.3.4:5", "1:2:3:4:5:6:7:8:1.2.3.4", "::ffff:1.2.3.4:0", "1.2.3.4/32/", "::/", "::/-0", "::/129", "::/0128x",
 }
 
 func c35GenEntry(g *core.Gen) c35Entry {
@@ -259,7 +444,7 @@ func c35GenEntry(g *core.Gen) c35Entry {
 				n = 80 + g.Intn(16)
 			}
 		}
-		return c35Entry{text: fmt.Sprintf("%s/%d", c35Text(g, a), n), addr: a, n: n, kind: "v6-block"}
+		return c35Entry{text: c35Text(g, a) + "/" + c35Prefix(g, n), addr: a, n: n, kind: "v6-block"}
 	case 10:
 		a := c35Mapped(c35V4(g))
 		return c35Entry{text: c35Text(g, a), addr: a, n: -1, kind: "mapped-addr"}
@@ -272,8 +457,19 @@ func c35GenEntry(g *core.Gen) c35Entry {
 		if g.Intn(4) == 0 {
 			n = core.Pick(g, []int{0, 79, 80, 81, 88, 95, 96, 97, 104, 120, 127, 128})
 		}
-		return c35Entry{text: fmt.Sprintf("%s/%d", c35Text(g, a), n), addr: a, n: n, kind: "mapped-block"}
+		return c35Entry{text: c35Text(g, a) + "/" + c35Prefix(g, n), addr: a, n: n, kind: "mapped-block"}
 	}
+}
+
+// c35Prefix writes a prefix length, now and then with leading zeros (dtoi reads them).
+func c35Prefix(g *core.Gen, n int) string {
+	switch g.Intn(12) {
+	case 0:
+		return "0" + fmt.Sprint(n)
+	case 1:
+		return fmt.Sprintf("%04d", n)
+	}
+	return fmt.Sprint(n)
 }
 
 func c35Flip(a []byte, bit int) []byte {
@@ -346,11 +542,18 @@ func c35Client(g *core.Gen, e c35Entry) ([]byte, string) {
 func c35Remote(g *core.Gen, ip []byte) string {
 	port := fmt.Sprint(1 + g.Intn(65535))
 	if ip == nil {
-		return core.Pick(g, []string{"", "@", "/tmp/mysql.sock", "pipe", "1.2.3.4", "[::1]", "::1:3306", "[1.2.3.4:80", "1.2.3.4]:80", "[[::1]]:80", "[::1]x:80", "host:80", ":80", "[]:80"})
+		return core.Pick(g, []string{"", "@", "/tmp/mysql.sock", "pipe", "1.2.3.4", "[::1]", "::1:3306", "[1.2.3.4:80", "1.2.3.4]:80", "[[::1]]:80", "[::1]x:80", "host:80", ":80", "[]:80",
+			"@gaea", "/var/run/gaea.sock:1", "/tmp/1.2.3.4:3306", "1.2.3.4:", "[::1]:", "[%eth0]:1", "%eth0:1", "[::1%]:1", "[::1]:80:90", "1.2.3.4:80:90", " 1.2.3.4:80", "1.2.3.4 :80", "[::1] :80", "010.0.0.1:80", "[::ffff:010.0.0.1]:80"})
 	}
 	a := &net.TCPAddr{IP: net.IP(ip), Port: 1 + g.Intn(65535)}
 	if len(ip) == 16 && net.IP(ip).To4() == nil && g.Intn(4) == 0 {
-		a.Zone = core.Pick(g, []string{"eth0", "lo", "1"})
+		a.Zone = core.Pick(g, []string{"eth0", "lo", "1", "%", "a%b", "]", "[", "eth0:1"})
+	}
+	if g.Intn(40) == 0 { // a zone on an IPv4 / IPv4-mapped peer (no kernel reports one; the text form exists)
+		a.Zone = "eth0"
+	}
+	if len(ip) == 16 && g.Intn(12) == 0 { // spellings String() never produces but SplitHostPort + ParseIP accept
+		return "[" + c35Text(g, ip) + "]:" + port
 	}
 	if g.Intn(10) == 0 {
 		if len(ip) == 4 || net.IP(ip).To4() != nil {
@@ -359,11 +562,6 @@ func c35Remote(g *core.Gen, ip []byte) string {
 	}
 	return a.String()
 }
-
-// c35KnownBudget bounds, per run, the generated cases that fall into the open
-// finding ipv4-client-in-short-ipv6-block-rejected (the runner keeps at most
-// 200 violations per run, and listed ones must not crowd out new ones).
-var c35KnownBudget int
 
 // does an IPv4(-mapped) client lie, as ::ffff:a.b.c.d, in a block written in IPv6 form with n < 96?
 func c35CrossFamily(es []c35Entry, client []byte) bool {
@@ -395,12 +593,7 @@ func c35CrossFamily(es []c35Entry, client []byte) bool {
 func c35Emit(g *core.Gen, es []c35Entry, client []byte, ctag string, viaConn bool) {
 	var xs []core.Sexp
 	if c35CrossFamily(es, client) {
-		if c35KnownBudget <= 0 {
-			client, ctag = c35V6(g), "client-random-v6"
-		} else {
-			c35KnownBudget--
-			ctag += "+cross-family"
-		}
+		ctag += "+cross-family"
 	}
 	tags := []string{ctag}
 	for _, e := range es {
@@ -428,8 +621,8 @@ func c35Emit(g *core.Gen, es []c35Entry, client []byte, ctag string, viaConn boo
 }
 
 func genC35(g *core.Gen) {
-	c35KnownBudget = 60
-	n := g.Scale(5000, 60000)
+	c31QuietLog()
+	n := g.Scale(8000, 60000)
 	for i := 0; i < n; i++ {
 		k := core.Pick(g, []int{0, 1, 1, 1, 2, 2, 3, 4})
 		var es []c35Entry
@@ -462,6 +655,12 @@ func genC35(g *core.Gen) {
 		g.Emit(core.L(core.A("verify"), core.L(core.Text(m))), "entry-malformed", "op-verify")
 		g.Emit(core.L(core.A("conn"), core.L(core.Text("1.2.3.4")), core.Text(m+":3306")), "remote-malformed", "op-conn")
 	}
+	c35GenReload(g)
+	c35GenSock(g)
+	c35GenHandshake(g)
+	for _, t := range []string{"", "1.2.3.4", "1.2.3.4,5.6.7.8/8", " 1.2.3.4 , ::1 ", "1.2.3.4,x", "x", "010.0.0.1", ",", "1.2.3.4,,::/0", "x,y,z", "1.2.3.4/33,fe80::1%eth0"} {
+		g.Emit(core.L(core.A("utilparse"), core.Text(t)), "op-utilparse")
+	}
 	if g.Tier != "quick" {
 		// exhaustive prefix lengths for one address of each family, boundary clients in every presentation
 		v4 := []byte{10, 85, 170, 255}
@@ -491,4 +690,443 @@ func genC35(g *core.Gen) {
 			}
 		}
 	}
+}
+
+// ---- reload histories ----
+
+func c35GenList(g *core.Gen) ([]c35Entry, []core.Sexp) {
+	k := core.Pick(g, []int{0, 1, 1, 1, 2, 2, 3})
+	var es []c35Entry
+	var xs []core.Sexp
+	for j := 0; j < k; j++ {
+		e := c35GenEntry(g)
+		for (e.kind == "malformed" || e.kind == "blank") && g.Intn(4) != 0 {
+			e = c35GenEntry(g)
+		}
+		e.text = c35Space(g, e.text)
+		es = append(es, e)
+		xs = append(xs, core.Text(e.text))
+	}
+	return es, xs
+}
+
+// c35GenReload emits histories on one proxy: the start-up list, then prepares
+// (of loadable lists, of lists with an entry that does not parse, of blank-only
+// and empty lists), commits, deletes, and clients connecting in between —
+// chosen relative to an entry of any list of the history, so that a client the
+// old list admits and the new one refuses (and the reverse) occurs often.
+func c35GenReload(g *core.Gen) {
+	n := g.Scale(1500, 12000)
+	for i := 0; i < n; i++ {
+		var pool []c35Entry
+		es0, xs0 := c35GenList(g)
+		pool = append(pool, es0...)
+		nops := 2 + g.Intn(8)
+		type pend struct {
+			kind string
+			xs   []core.Sexp
+		}
+		var plan []pend
+		for j := 0; j < nops; j++ {
+			switch g.Intn(10) {
+			case 0, 1, 2:
+				es, xs := c35GenList(g)
+				pool = append(pool, es...)
+				plan = append(plan, pend{"prepare", xs})
+				if g.Intn(3) != 0 {
+					plan = append(plan, pend{"commit", nil})
+				}
+			case 3:
+				plan = append(plan, pend{"commit", nil})
+			case 4:
+				if g.Intn(3) == 0 {
+					plan = append(plan, pend{"delete", nil})
+				} else {
+					plan = append(plan, pend{"conn", nil})
+				}
+			default:
+				plan = append(plan, pend{"conn", nil})
+			}
+		}
+		ops := []core.Sexp{core.A("reload"), core.L(xs0...)}
+		tags := []string{"op-reload"}
+		for _, p := range plan {
+			switch p.kind {
+			case "prepare":
+				ops = append(ops, core.L(core.A("prepare"), core.L(p.xs...)))
+			case "conn":
+				var ref c35Entry
+				if len(pool) > 0 {
+					ref = core.Pick(g, pool)
+				}
+				client, _ := c35Client(g, ref)
+				ops = append(ops, core.L(core.A("conn"), core.Text(c35Remote(g, client))))
+			default:
+				ops = append(ops, core.L(core.A(p.kind)))
+			}
+		}
+		g.Emit(core.L(ops...), tags...)
+	}
+	// the shapes the question is about, spelled out: an unparsable replacement must not open the namespace
+	t := core.Text
+	conn := func(r string) core.Sexp { return core.L(core.A("conn"), t(r)) }
+	prep := func(es ...string) core.Sexp {
+		var xs []core.Sexp
+		for _, e := range es {
+			xs = append(xs, t(e))
+		}
+		return core.L(core.A("prepare"), core.L(xs...))
+	}
+	commit, del := core.L(core.A("commit")), core.L(core.A("delete"))
+	for _, bad := range []string{"010.0.0.1", "fe80::1%eth0", "1.2.3.4/33", "x"} {
+		g.Emit(core.L(core.A("reload"), core.L(t("10.0.0.0/8")), conn("10.1.1.1:1"), conn("9.9.9.9:1"), prep(bad), commit, conn("10.1.1.1:1"), conn("9.9.9.9:1"),
+			prep("10.0.0.0/8", bad), commit, conn("9.9.9.9:1"), prep(" ", bad, ""), commit, conn("9.9.9.9:1")), "op-reload", "reload-unparsable")
+		g.Emit(core.L(core.A("reload"), core.L(t(bad)), conn("10.1.1.1:1"), commit, prep("10.0.0.0/8"), conn("10.1.1.1:1"), commit, conn("10.1.1.1:1"), conn("9.9.9.9:1")), "op-reload", "reload-unparsable-start")
+	}
+	g.Emit(core.L(core.A("reload"), core.L(t("10.0.0.0/8")), prep(), commit, conn("9.9.9.9:1"), prep(" ", ""), commit, conn("[2001:db8::1]:1"), prep("::/0"), commit, conn("9.9.9.9:1"), conn("@"),
+		del, conn("9.9.9.9:1"), commit, prep("9.9.9.9"), conn("9.9.9.9:1"), commit, conn("9.9.9.9:1")), "op-reload", "reload-empty-list")
+}
+
+func c35GenSock(g *core.Gen) {
+	have := c35HaveSock()
+	lists := [][]string{{}, {"127.0.0.1"}, {"::1"}, {"::/0"}, {"0.0.0.0/0"}, {"::ffff:127.0.0.1"}, {"::ffff:0:0/96"}, {"127.0.0.0/8"}, {"10.0.0.0/8"}, {"::/127"},
+		{"::ffff:127.0.0.0/104"}, {"::ffff:0:0/95"}, {"8000::/1"}, {" ", ""}, {"10.0.0.0/8", "::1/128", "127.0.0.1/32"}, {"0:0:0:0:0:0:0:1"}, {"::FFFF:7F00:1"}}
+	for _, k := range []string{"tcp4", "tcp6", "dual4", "unix"} {
+		if !have[k] {
+			continue // reported by the whole-run check (c35Concurrent notes the kinds this machine offers)
+		}
+		for _, l := range lists {
+			var xs []core.Sexp
+			for _, e := range l {
+				xs = append(xs, core.Text(e))
+			}
+			g.Emit(core.L(core.A("sock"), core.A(k), core.L(xs...)), "op-sock", "sock-"+k)
+		}
+	}
+}
+
+func c35GenHandshake(g *core.Gen) {
+	have := c35HaveSock()
+	lists := [][]string{{}, {"127.0.0.1"}, {"::1"}, {"::/0"}, {"0.0.0.0/0"}, {"::ffff:127.0.0.1"}, {"10.0.0.0/8"}, {"::ffff:0:0/95"}, {"10.0.0.0/8", "::1/128", "127.0.0.1/32"}, {" ", ""}}
+	for _, k := range []string{"tcp4", "tcp6", "dual4", "unix"} {
+		if !have[k] {
+			continue
+		}
+		for _, l := range lists {
+			var xs []core.Sexp
+			for _, e := range l {
+				xs = append(xs, core.Text(e))
+			}
+			g.Emit(core.L(core.A("hs"), core.A(k), core.L(xs...)), "op-hs", "hs-"+k)
+		}
+	}
+}
+
+// ---- whole-run check: clients connecting while the list is reloaded ----
+
+// c35Concurrent lets clients connect (Session.IsAllowConnect on the real
+// Manager) while another goroutine reloads the namespace back and forth
+// between two loadable lists A and B, with a prepare of an unparsable list in
+// between. Every decision must be the one of list A or the one of list B for
+// that client (the model's answers): never a panic, never the answer of an
+// empty or half-built list.
+func c35Concurrent(r *core.Run) {
+	type client struct {
+		remote string
+		seen   [2]int // refused, admitted
+	}
+	type trial struct {
+		a, b    []string
+		clients []*client
+		first   int
+	}
+	trials := 18
+	rounds := 80
+	if r.Tier != "quick" {
+		trials, rounds = 120, 300
+	}
+	pairs := [][2][]string{
+		{{"10.0.0.0/8"}, {"10.1.0.0/16", "2001:db8::/32"}},
+		{{"::/0"}, {"0.0.0.0/0"}},
+		{{"::ffff:10.0.0.0/104"}, {"::ffff:0:0/95"}},
+		{{"192.168.1.7", "fe80::/10"}, {"192.168.0.0/16", "fe80::1"}},
+		{{"1.2.3.4"}, {" ", "1.2.3.5", ""}},
+		{{"2001:db8::/33"}, {"2001:db8:8000::/33", "10.1.2.3/32"}},
+	}
+	remotes := []string{"10.1.2.3:4000", "10.2.2.3:4000", "11.0.0.1:1", "[2001:db8::1]:3306", "[2001:db8:8000::1]:3306", "[fe80::1%eth0]:5", "192.168.1.7:9", "192.168.9.9:9",
+		"1.2.3.4:1", "1.2.3.5:1", "@", "[::ffff:10.1.2.3]:7", "[::1]:1"}
+	r.Note("real connections this machine offers for `sock`: %v", c35HaveSock())
+	var ts []*trial
+	var lines []string
+	line := func(l []string, remote string) string {
+		var xs []core.Sexp
+		for _, e := range l {
+			xs = append(xs, core.Text(e))
+		}
+		return "C35 m " + core.L(core.A("conn"), core.L(xs...), core.Text(remote)).String()
+	}
+	for t := 0; t < trials; t++ {
+		p := pairs[t%len(pairs)]
+		tr := &trial{a: p[0], b: p[1]}
+		if r.Rand.Intn(2) == 0 {
+			tr.a, tr.b = tr.b, tr.a
+		}
+		for _, rm := range remotes {
+			tr.clients = append(tr.clients, &client{remote: rm})
+		}
+		m, err := c35Manager(tr.a)
+		if err != nil {
+			r.Note("concurrent check: cannot create manager: %v", err)
+			return
+		}
+		stop := make(chan struct{})
+		var wg sync.WaitGroup
+		panicked := make(chan string, 8)
+		for w := 0; w < 3; w++ {
+			wg.Add(1)
+			go func(w int) {
+				defer wg.Done()
+				defer func() {
+					if e := recover(); e != nil {
+						select {
+						case panicked <- fmt.Sprint(e):
+						default:
+						}
+					}
+				}()
+				seen := make([][2]int, len(tr.clients))
+				for i := w; ; i++ {
+					select {
+					case <-stop:
+						mu35.Lock()
+						for k := range seen {
+							tr.clients[k].seen[0] += seen[k][0]
+							tr.clients[k].seen[1] += seen[k][1]
+						}
+						mu35.Unlock()
+						return
+					default:
+					}
+					k := i % len(tr.clients)
+					if server.VerifC35Connect(m, c35NS, c35Addr(tr.clients[k].remote)) {
+						seen[k][1]++
+					} else {
+						seen[k][0]++
+					}
+				}
+			}(w)
+		}
+		for i := 0; i < rounds; i++ {
+			next := tr.b
+			if i%2 == 1 {
+				next = tr.a
+			}
+			m.ReloadNamespacePrepare(c35Config([]string{"010.0.0.1"})) // refused; must change nothing
+			if err := m.ReloadNamespacePrepare(c35Config(next)); err == nil {
+				m.ReloadNamespaceCommit(c35NS)
+			}
+		}
+		close(stop)
+		wg.Wait()
+		m.VerifC31Close()
+		select {
+		case e := <-panicked:
+			r.AddViolation(core.Finding{Kind: "failing-input", Class: "allow-check-panic",
+				Input: "(race " + fmt.Sprint(tr.a) + " " + fmt.Sprint(tr.b) + ")", Impl: "panic: " + e,
+				Detail: "Session.IsAllowConnect panicked while the namespace was being reloaded"})
+		default:
+		}
+		tr.first = len(lines)
+		for _, c := range tr.clients {
+			lines = append(lines, line(tr.a, c.remote), line(tr.b, c.remote))
+		}
+		ts = append(ts, tr)
+	}
+	ans, err := core.DriverBatch(r.Driver, lines)
+	if err != nil {
+		r.Note("concurrent check: driver: %v", err)
+		return
+	}
+	dec := func(s string) string {
+		if i := strings.Index(s, " | "); i >= 0 {
+			s = s[:i]
+		}
+		return s
+	}
+	bad, total := 0, 0
+	for _, tr := range ts {
+		for k, c := range tr.clients {
+			da, db := dec(ans[tr.first+2*k]), dec(ans[tr.first+2*k+1])
+			total += c.seen[0] + c.seen[1]
+			wrong := ""
+			if c.seen[1] > 0 && da != "t" && db != "t" {
+				wrong = "t"
+			}
+			if c.seen[0] > 0 && da != "f" && db != "f" {
+				wrong = "f"
+			}
+			if wrong != "" {
+				bad++
+				if bad <= 3 {
+					cls := "listed-client-rejected"
+					if wrong == "t" {
+						cls = "unlisted-client-allowed"
+					}
+					r.AddViolation(core.Finding{Kind: "failing-input", Class: cls,
+						Input:  fmt.Sprintf("(race %q %q %q)", tr.a, tr.b, c.remote),
+						Impl:   fmt.Sprintf("(refused %d admitted %d)", c.seen[0], c.seen[1]),
+						Detail: fmt.Sprintf("clients connecting while the allow-list is reloaded between the two lists: the model decides %s under the first list and %s under the second, the proxy answered %s (schedule-dependent: re-run the check to look for it again)", da, db, wrong)})
+				}
+			}
+		}
+	}
+	r.Res.Distribution["concurrent-connects"] += total
+	r.Note("clients connecting during reloads: %d trials, %d decisions, %d of neither list", len(ts), total, bad)
+}
+
+var mu35 sync.Mutex
+
+// ---- a whole handshake over a real connection ----
+
+// c35Listen opens a real listener of the kind; dial is where a client reaches it.
+func c35Listen(kind string) (ln net.Listener, dialNet, dial string, cleanup func(), err error) {
+	cleanup = func() {}
+	network, addr := "", ""
+	switch kind {
+	case "tcp4":
+		network, addr = "tcp4", "127.0.0.1:0"
+	case "tcp6":
+		network, addr = "tcp6", "[::1]:0"
+	case "dual4":
+		network, addr = "tcp", "[::]:0"
+	case "unix":
+		dir, e := os.MkdirTemp("", "gvc35")
+		if e != nil {
+			return nil, "", "", cleanup, e
+		}
+		cleanup = func() { os.RemoveAll(dir) }
+		network, addr = "unix", filepath.Join(dir, "s")
+	default:
+		return nil, "", "", cleanup, fmt.Errorf("kind %q", kind)
+	}
+	ln, err = net.Listen(network, addr)
+	if err != nil {
+		return nil, "", "", cleanup, err
+	}
+	dial, dialNet = ln.Addr().String(), network
+	if kind == "dual4" {
+		_, port, _ := net.SplitHostPort(dial)
+		dial, dialNet = "127.0.0.1:"+port, "tcp4"
+	}
+	return ln, dialNet, dial, cleanup, nil
+}
+
+func c35ReadPacket(c net.Conn) ([]byte, error) {
+	var hdr [4]byte
+	if _, err := io.ReadFull(c, hdr[:]); err != nil {
+		return nil, err
+	}
+	n := int(hdr[0]) | int(hdr[1])<<8 | int(hdr[2])<<16
+	b := make([]byte, n)
+	_, err := io.ReadFull(c, b)
+	return b, err
+}
+
+// c35Handshake starts the proxy's own connection handler (Server.onConn) on a
+// real listener of the kind for a namespace with the given allowed_ip, logs in
+// as that namespace's user with the right password from a real client socket,
+// and reports what the client is told: (ok TEXT) — the OK packet — or
+// (denied TEXT) — error 1045 "ip not allowed to connect"; TEXT is the remote
+// address the server saw (port replaced by 1).
+func c35Handshake(kind string, allowed []string) string {
+	m, err := c35Manager(allowed)
+	if err != nil {
+		return "(err manager)"
+	}
+	defer m.VerifC31Close()
+	if m.GetNamespace(c35NS) == nil {
+		return "(err parse)"
+	}
+	ln, dialNet, dial, cleanup, err := c35Listen(kind)
+	defer cleanup()
+	if err != nil {
+		return "(err sock)"
+	}
+	defer ln.Close()
+	srv, err := server.VerifC35Server(m, ln)
+	if err != nil {
+		return "(err server)"
+	}
+	defer srv.VerifC35Stop()
+	seen := make(chan string, 1)
+	crashed := make(chan string, 1)
+	go func() {
+		c, err := ln.Accept()
+		if err != nil {
+			seen <- ""
+			return
+		}
+		seen <- c.RemoteAddr().String()
+		// the accept loop runs `go s.onConn(conn)` with nothing above it: a panic that escapes
+		// onConn ends the whole proxy. Here it is caught and reported as the outcome `crash`.
+		defer func() {
+			if e := recover(); e != nil {
+				crashed <- fmt.Sprint(e)
+				c.Close()
+			}
+		}()
+		srv.VerifC35OnConn(c)
+	}()
+	c, err := net.DialTimeout(dialNet, dial, 5*time.Second)
+	if err != nil {
+		return "(err sock)"
+	}
+	defer c.Close()
+	c.SetDeadline(time.Now().Add(10 * time.Second))
+	text := c35Port.ReplaceAllString(<-seen, ":1")
+	// initial handshake packet (protocol 10): version\0 connid(4) salt1(8) 0 caps(2) charset status(2) caps(2) authlen 0*10 salt2…
+	p, err := c35ReadPacket(c)
+	if err != nil || len(p) < 1 || p[0] != 10 {
+		select {
+		case <-crashed:
+			return "(crash " + core.Text(text).String() + ")"
+		case <-time.After(200 * time.Millisecond):
+		}
+		return "(err greeting)"
+	}
+	i := 1 + bytes.IndexByte(p[1:], 0) + 1
+	if i+4+8+1+2+1+2+2+1+10+12 > len(p) {
+		return "(err greeting)"
+	}
+	salt := append([]byte{}, p[i+4:i+12]...)
+	j := i + 4 + 8 + 1 + 2 + 1 + 2 + 2 + 1 + 10
+	salt = append(salt, p[j:j+12]...)
+	// handshake response 41 without CLIENT_PLUGIN_AUTH: caps(4) maxpacket(4) charset 0*23 user\0 authlen auth
+	const caps = 0x00000001 | 0x00000200 | 0x00008000 // LONG_PASSWORD | PROTOCOL_41 | SECURE_CONNECTION
+	var r []byte
+	r = binary.LittleEndian.AppendUint32(r, caps)
+	r = binary.LittleEndian.AppendUint32(r, 1<<24-1)
+	r = append(r, 45) // utf8mb4_general_ci
+	r = append(r, make([]byte, 23)...)
+	r = append(r, "u0\x00"...)
+	auth := c30Native(salt, "p0")
+	r = append(r, byte(len(auth)))
+	r = append(r, auth...)
+	pkt := append([]byte{byte(len(r)), byte(len(r) >> 8), byte(len(r) >> 16), 1}, r...)
+	if _, err := c.Write(pkt); err != nil {
+		return "(err write)"
+	}
+	p, err = c35ReadPacket(c)
+	if err != nil || len(p) < 1 {
+		return "(err reply " + core.Text(text).String() + ")"
+	}
+	switch {
+	case p[0] == 0x00:
+		return "(ok " + core.Text(text).String() + ")"
+	case p[0] == 0xff && len(p) >= 3 && int(p[1])|int(p[2])<<8 == 1045 && bytes.Contains(p, []byte("ip not allowed to connect")):
+		return "(denied " + core.Text(text).String() + ")"
+	case p[0] == 0xff && len(p) >= 3:
+		return fmt.Sprintf("(err code %d)", int(p[1])|int(p[2])<<8)
+	}
+	return fmt.Sprintf("(err reply-byte %d)", p[0])
 }
